@@ -15,7 +15,8 @@ git checkout -q . && git clean -fdq
 git checkout -q --detach $(git -C /repo rev-parse HEAD) 2>/dev/null
 if ! git apply --check $OUT/patch.diff 2>/dev/null; then log "patch does not apply to current HEAD"; exit 4; fi
 T=$(mktemp -d); cp go.mod go.sum $T/
-run() { go test -modfile=$T/go.mod -vet=off -count=1 "$@" 2>&1; }
+RACE=""; grep -q -- "-race" $OUT/DEMO_DIR.txt 2>/dev/null && RACE="-race"
+run() { go test $RACE -modfile=$T/go.mod -vet=off -count=1 "$@" 2>&1; }
 mkdir -p $DEMODIR; cp $OUT/demo_test.go $DEMODIR/zz_demo_test.go
 if run ./$DEMODIR/ | grep -q '^ok'; then BASE=pass; else BASE=fail; fi
 git apply $OUT/patch.diff
